@@ -1,7 +1,7 @@
 (* C10 correspondence harness: cases written by harness/py/checks/c10.py are evaluated with vm_compute.
    A case = (verb spec, input records, records observed from the scratch-built mlr).  Observed values carry their
    printed text and, when the text is a number, its exact rational value (parsed by the Python side). *)
-From Miller Require Import C10.Model C10.Verbs.
+From Miller Require Import C10.Model C10.Verbs C10.Verbs2.
 Open Scope char_scope.
 
 Inductive vspec :=
@@ -11,7 +11,14 @@ Inductive vspec :=
 | SCountSimilar (gs : list bytes) (out : bytes)
 | SStats1 (interp : bool) (accs : list accreq) (fs gs : list bytes)
 | SStats1W (interp : bool) (accs : list accreq) (fs gs : list bytes) (n : nat)
-| SAcc (interp : bool) (a : accname) (vs : list val).     (* a DSL statistics function on an array of numbers *)
+| SAcc (interp : bool) (a : accname) (vs : list val)      (* a DSL statistics function on an array of numbers *)
+| SFraction (fs gs : list bytes) (pct cumu : bool)
+| SStep (sps : list stepreq) (fs gs : list bytes)
+| SMergeFields (interp keep : bool) (accs : list accreq) (mode : mfmode) (base : bytes)
+| SHistogram (lo hi : Q) (nbins : Z) (prefix : bytes) (fs : list bytes)
+| STop (n : nat) (domax : bool) (out : bytes) (fs gs : list bytes)
+| SFrequent (descending : bool) (maxn : nat) (show_counts : bool) (out : bytes) (gs : list bytes)
+| SFillDown (all only_if_absent : bool) (fs : list bytes).
 
 Definition run_spec (v : vspec) (rs : list record) : list orec :=
   match v with
@@ -22,6 +29,13 @@ Definition run_spec (v : vspec) (rs : list record) : list orec :=
   | SStats1 i accs fs gs => verb_stats1 i accs fs gs rs
   | SStats1W i accs fs gs n => verb_stats1_w i accs fs gs n rs
   | SAcc i a vs => [[(B "r", run_acc i a vs)]]
+  | SFraction fs gs p c => verb_fraction fs gs p c rs
+  | SStep sps fs gs => verb_step sps fs gs rs
+  | SMergeFields i k accs mode base => verb_merge_fields i k accs mode base rs
+  | SHistogram lo hi nb pre fs => verb_histogram lo hi nb pre fs rs
+  | STop n mx out fs gs => verb_top n mx out fs gs rs
+  | SFrequent d n sc out gs => verb_frequent d n sc out gs rs
+  | SFillDown a o fs => verb_fill_down a o fs rs
   end.
 
 Definition obsval := (bytes * option Q)%type.
